@@ -149,12 +149,17 @@ package codegen
 //@   loop 1: invariant isLen1 || added == len(v)
 //@   at `wg.Wait()` requires isLen1 || calls(spawn) + calls(Done) == added
 //@   ensures res0 != graphql.Null && len(v) > 0 ==> calls(Wait) == 1
-//@ family listmarshal$closure [C04,C05]
+//@ family listmarshal$closure [C04,C05,C06,C01]
 //@   params f
 //@   noescape
 //@   ensures !isLen1 ==> calls(Done) == 1
 //@   ensures isLen1 ==> calls(Done) == 0
 //@   ensures panicked ==> calls(Recover) == 1 && calls(Error) == 1
+// Only this element fails (D29): it completes to null, the list itself and every other element stay as they are -
+// the closure never assigns the shared slice variable (which its siblings read concurrently), only its own slot.
+//@   replay listElementPanic.go.tmpl
+//@   ensures panicked ==> ret[i] == graphql.Null
+//@   ensures ret == old(ret)
 // NonNull element type ([T!]): a null element makes the whole list null.
 //@ family listnn [C01]
 //@   loop 2: invariant forall k int :: (0 <= k && k < idx2) ==> ret[k] != graphql.Null
